@@ -42,7 +42,10 @@ CHECKS = [
              'handshake message (version line, KEXINIT cookie / each of the '
              '10 name-lists / flags, each field of each kex-method message) in '
              'either direction: no edit may yield an authenticated '
-             'connection or let credentials reach the server. Negotiation: '
+             'connection, let credentials reach the server, or (entry point '
+             'get_server_host_key) have the key exchange reported complete; '
+             'value-preserving re-encodings of every ssh-rsa blob enumerated '
+             'per method. Negotiation: '
              'generated preference lists, result compared with the 3-line '
              'RFC rule through get_extra_info and through an independent '
              'peer that only decodes if both sides chose alike.',
@@ -162,7 +165,8 @@ CHECKS = [
              'loss of the transport after byte k of either direction) at a '
              'generated point; plus an enumerated sweep cutting 8 scripted '
              'sessions at every record boundary and at bytes 0..60 of the '
-             'next record. After quiescence: every awaited call is done, '
+             'next record; X11 forwardings in use over real loopback sockets '
+             '(family x11). After quiescence: every awaited call is done, '
              'every owner/session log is connection_made ... connection_lost '
              'exactly once and last, no channel or listener registered, no '
              'task alive, loop exception handler silent.',
@@ -197,7 +201,8 @@ CHECKS = [
              'per request type x version x field boundary in family bodies; '
              'an extended body is a bad message below version 6), '
              'pipelined, injected OSError and '
-             'SFTPError): multiset of reply ids == request ids, reply type '
+             'SFTPError - the error table enumerated per errno / status code '
+             'x path operation x version in family errors): multiset of reply ids == request ids, reply type '
              'legal for the request, BAD_MESSAGE / OP_UNSUPPORTED and errno '
              'mapping per version, session stays usable. Client under test '
              'against a scripted server answering k outstanding calls in '
@@ -282,7 +287,9 @@ CHECKS = [
      'text': 'Raw signatures for every key type x algorithm: every '
              'single-byte edit, truncation/extension, algorithm rename, other '
              'key, other message must fail, cross-verified with '
-             'cryptography; certificates built by an independent encoder or '
+             'cryptography; security-key signatures made by a reference '
+             'authenticator (flags, counter, application; family sksig); '
+             'certificates built by an independent encoder or '
              'the API validated against a reference predicate at boundary '
              'instants (patched clock), 14 post-signing alterations and '
              'every single-byte edit refused; SSHSIG creation/validation '
@@ -290,7 +297,7 @@ CHECKS = [
              'ssh-keygen -Y sign/verify/check-novalidate; ssh-keygen -L/-s '
              'for certificates.',
      'note': 'Reference side is an own SSH wire codec plus cryptography; '
-             'X.509 and security keys not runnable; one measured OpenSSH '
+             'X.509 not runnable, security keys verify-only; one measured OpenSSH '
              'boundary difference (valid-before instant) excluded from the '
              'differential and asserted per asyncssh documentation.',
      'technique': 'exhaustive single-byte mutation + reference-predicate PBT '
